@@ -572,6 +572,7 @@ void vf_slice_0()
 #include <fcppt/container/set_union.hpp>
 #include <fcppt/optional/object.hpp>
 #include <algorithm>
+#include <functional>
 #include <iterator>
 #include <unordered_map>
 namespace
@@ -919,6 +920,42 @@ void vf_slice_1()
     // std::set is not among the registered container kinds: its elements are const, so join can only copy them
     observed_scope const os;
     t_join2<std::set<E>>("set", mkset);
+  }
+  // a set whose ordering is run-time state of the container object: "never duplicate or lose an element" - every
+  // element of every argument is in the result of join exactly once (all payloads are distinct), whatever the value
+  // category of the FIRST argument (the result starts out as that argument: its ordering comes along)
+  {
+    using cmp_t = bool (*)(E const &, E const &);
+    using SF = std::set<E, cmp_t>;
+    cmp_t const descending = [](E const &a, E const &b) { return b.peek() < a.peek(); };
+    cmp_t const by_tens = [](E const &a, E const &b) { return a.peek() / 10 < b.peek() / 10; };
+    (void)by_tens;
+    observed_scope const os; // the event log is not judged (copies are what a set can do); presence and order are, below
+    for (unsigned first_rvalue = 0; first_rvalue < 2; ++first_rvalue)
+      for (unsigned na = 0; na < 4; ++na)
+        for (unsigned nb = 0; nb < 3; ++nb)
+          run_case("container::join<set<E,function-pointer-compare>>/2", first_rvalue ? "R,L" : "L,L",
+                   "na=" + std::to_string(na) + " nb=" + std::to_string(nb), [&](case_t &cx) {
+                     SF a(descending), b(descending);
+                     for (unsigned i = 0; i < na; ++i)
+                       a.insert(E(make_t{}, cx.fresh()));
+                     for (unsigned i = 0; i < nb; ++i)
+                       b.insert(E(make_t{}, cx.fresh()));
+                     std::vector<int> all = payloads_of(snapshot(a));
+                     for (int q : payloads_of(snapshot(b)))
+                       all.push_back(q);
+                     std::vector<int> const a_before = payloads_of(snapshot(a));
+                     SF const r = first_rvalue ? fcppt::container::join(SF(a), b) : fcppt::container::join(a, b);
+                     std::vector<int> got = payloads_of(snapshot(r));
+                     std::vector<int> want = all;
+                     std::sort(want.begin(), want.end(), std::greater<int>());
+                     if (got != want)
+                       vf::violation("container::join<set<E,function-pointer-compare>>/2/elements-or-order-of-the-first-argument", "mismatch",
+                                     "result holds " + show(got) + ", the arguments hold " + show(want) + " (in the first argument's order)");
+                     if (!first_rvalue && payloads_of(snapshot(a)) != a_before)
+                       vf::violation("container::join<set<E,function-pointer-compare>>/2/lvalue-argument-changed", "mismatch", "first argument");
+                     VF_COUNT("join/set-with-run-time-ordering");
+                   });
   }
 #else
   (void)mkset;
